@@ -134,7 +134,7 @@ func (p *parser) parseRegExpLiteral() *ast.RegExpLiteral {
 	}
 
 	flags := ""
-	if p.token == token.IDENTIFIER { // gim
+	if p.token == token.IDENTIFIER && !p.implicitSemicolon { // gim (not across a line terminator: 7.9.1)
 		flags = p.literal
 		endOffset = p.chrOffset
 		p.next()
